@@ -797,6 +797,14 @@ func controlsReturn(fn *ssa.Function, r ssa.Instruction) bool {
 			switch y := u.(type) {
 			case *ssa.If:
 				for _, s := range y.Block().Succs {
+					// (through blocks that only jump on: an inlined helper's `return true` arrives at the
+					// caller's `return` by way of such a block)
+					for hops := 0; hops < 3 && len(s.Instrs) == 1 && len(s.Succs) == 1; hops++ {
+						if _, isJump := s.Instrs[0].(*ssa.Jump); !isJump {
+							break
+						}
+						s = s.Succs[0]
+					}
 					if len(s.Instrs) > 0 {
 						if _, ok := s.Instrs[len(s.Instrs)-1].(*ssa.Return); ok && len(s.Instrs) <= 3 {
 							return true
